@@ -54,6 +54,10 @@ except (OSError, ValueError):
     pass
 # changes kept although the broken property's check does not (and must not) fire on them
 NOT_A_VIOLATION = {
+ "C10-r5m1": "Not detected, by design: the remainder of chunks_from_slice is derived from the end of the chunk slice (as_ptr_range().end) instead of from the source slice. "
+             "Counts, lengths, addresses and contents are unchanged; native runs, the const evaluator and Miri under Tree Borrows accept it. Only the experimental Stacked "
+             "Borrows model objects (the remainder's tag is a child of the chunk slice's), and the pinned tree's chunks_from_slice_mut already fails that model. C10 (same "
+             "memory, same order, no overlap, nothing beyond the end) holds for the changed code; the thorough tier prints the Stacked Borrows report as advisory.",
  "C09-r3m1": "Not detected, by design: (&mut a).split() derives both halves from two whole-array reborrows. Values, addresses, adjacency, disjointness and drop counts are "
              "unchanged natively and under Miri/Tree Borrows; only the experimental Stacked Borrows model objects, and the pinned tree has the same pattern in "
              "chunks_from_slice_mut. C09's by-reference clause (disjoint, adjacent, covering, no copy) holds for the changed code, so an alarm would be a false one; "
